@@ -153,6 +153,7 @@ public:
     }
 
     bool deleted(CRef);                             // Remove clauses if possible
+    void resetEmptyClauseDerivation();              // Forget the stored refutation (the solver left the refuted state)
     inline Clause& getClause(CRef cr) const { return cl_al[cr]; } // Get clause from reference
 
     void printSMT2(std::ostream &, CoreSMTSolver &, THandler &) const;     // Print proof in SMT-LIB format
